@@ -99,7 +99,7 @@ func ruleConjunctiveMatcher(c *Ctx, rule string) {
 // server's availableCaps can never emit X.
 func requiresUnadvertisable(c *Ctx, f *types.Var) bool {
 	doc := fieldComment(c.P, f)
-	idx := strings.Index(doc, "requires ")
+	idx := strings.Index(strings.ToLower(doc), "requires ")
 	if idx < 0 {
 		return false
 	}
